@@ -104,7 +104,7 @@ def opEqs : P String := do
   let s := mkEqSwap eqIsPay strike qty spread eqFreq rateFreq (eps.map (·.1)) (fps.map (·.1))
   let idx := idxOfTable dfI (eps.map (fun e => (e.1.start, e.1.stop, e.2)) ++ fps.map (fun e => (e.1.start, e.1.stop, e.2.1)))
   let st := eqState df idx dvd cur s.eq vd
-  match fillRateNotionals eqFreq rateFreq (eqLastNotionals st) with
+  match fillRateNotionals eqFreq rateFreq (s.eq.periods.map (·.stop)) (eqLastNotionals st) (s.rate.periods.map (·.start)) with
   | .error e => pure ("E:" ++ e.tag)
   | .ok arr =>
     if arr.length < fps.length then pure "E:IndexError" else
